@@ -285,12 +285,27 @@ fn gen_cell(seed: u64, case: u64, thorough: bool, force_back: Option<bool>, forc
             xfers,
         });
     }
-    let back = (0..2).map(|_| gen_peer(&mut rng, true, total_up / 2)).collect();
+    let back: Vec<PeerPlan> = (0..2).map(|_| gen_peer(&mut rng, true, total_up / 2)).collect();
+    let h1_io = gen_io(&mut rng);
+    // byte-at-a-time I/O programs are for boundary splitting, not for bulk: keep their cells small
+    let tiny = |io: &IoProgram| (1..=10).contains(&io.write_seg) || (1..=9).contains(&io.read_chunk);
+    let cell_tiny = (back_h2c && back.iter().any(|b| tiny(&b.io))) || (!back_h2c && tiny(&h1_io));
+    for c in conns.iter_mut() {
+        if cell_tiny || tiny(&c.front.io) {
+            let mut left = 100_000usize;
+            for x in c.xfers.iter_mut() {
+                x.up = x.up.min(20_000).min(left);
+                left -= x.up;
+                x.down = x.down.min(20_000).min(left);
+                left -= x.down;
+            }
+        }
+    }
     CellPlan {
         case,
         back_h2c,
         back,
-        h1_io: gen_io(&mut rng),
+        h1_io,
         conns,
         front_sndbuf: if rng.chance(1, 3) { Some(*rng.pick(&[4096i64, 16_384, 65_536])) } else { None },
         back_sndbuf: if rng.chance(1, 3) { Some(*rng.pick(&[4096i64, 16_384, 65_536])) } else { None },
@@ -1291,6 +1306,7 @@ fn client_loop(
     out: &mut ConnOutcome,
 ) -> Result<(), H2Error> {
     c.handshake_client(&plan.front.settings)?;
+    let started = Instant::now();
     let mut last_progress = Instant::now();
     let mut next_open = 0usize;
     loop {
@@ -1441,6 +1457,10 @@ fn client_loop(
             }
         }
         if next_open == xs.len() && xs.iter().all(|x| x.done || x.failed.is_some()) {
+            return Ok(());
+        }
+        if started.elapsed() > Duration::from_secs(90) {
+            out.stuck = Some(("connection_deadline".to_owned(), "still progressing after 90 s".to_owned()));
             return Ok(());
         }
         if last_progress.elapsed() > watchdog {
@@ -1711,7 +1731,11 @@ fn run_cell(ctx: &Ctx, force: Force, seed: u64, case: u64, rep: &mut Report, sol
         if p.in_sozu() {
             rep.violation(&p.signature(), &format!("sozu panicked: {} at {}", p.message, p.location), json!({"case": case, "seed": seed, "generator": force.json(), "plan": plan_json(&plan)}));
         } else {
-            rep.broken(&format!("worker thread panicked outside sozu: {} at {}", p.message, p.location));
+            // e.g. kawa-0.6.8 storage/repr.rs:612 `amount - data.len() + index`: an intermediate
+            // underflow that only the verif profile's overflow-checks turn into a panic (the release
+            // build wraps back to the right value). Not sozu's code, not a verdict; the cell is lost.
+            rep.inconclusive("worker thread panicked in a dependency (overflow-checks artefact)");
+            rep.sample(json!({"case": case, "worker_panic_outside_repo": p.location, "message": p.message}));
         }
     }
     for (kind, detail, trace, conn) in shared.back_violations.lock().unwrap().iter() {
@@ -1848,6 +1872,7 @@ pub fn run(ctx: &Ctx) -> Report {
             cases.push(c.case);
         }
     }
+    let n_classes = cases.len();
     for c in &candidates {
         if !cases.contains(&c.case) {
             cases.push(c.case);
@@ -1857,7 +1882,9 @@ pub fn run(ctx: &Ctx) -> Report {
     let mut confirmed: std::collections::BTreeSet<String> = std::collections::BTreeSet::new();
     for (i, case) in cases.iter().enumerate() {
         let group: Vec<&Stuck> = candidates.iter().filter(|c| c.case == *case).collect();
-        if i >= max_reruns || (ctx.replay.is_some()) {
+        // every distinct class gets its isolated second look; beyond that the count and the clock decide
+        let late = ctx.started.elapsed() > ctx.budget + Duration::from_secs(30);
+        if (i >= n_classes && (i >= max_reruns || late)) || ctx.replay.is_some() {
             for cand in group {
                 if ctx.replay.is_some() {
                     // a replay already runs alone: the candidate itself is the second observation
@@ -1866,7 +1893,7 @@ pub fn run(ctx: &Ctx) -> Report {
                     // one more sighting of a class that an isolated re-run confirmed in this very run
                     rep.obs(&format!("further_sightings_not_rerun.{}", cand.class), 1);
                 } else {
-                    rep.inconclusive(&format!("watchdog/{} (not re-run: too many candidates)", cand.class));
+                    rep.inconclusive(&format!("watchdog/{} (not re-run: too many candidates or out of time)", cand.class));
                 }
             }
             continue;
